@@ -138,6 +138,7 @@ func anySwContainer(c psatoken.IClaims) psatoken.ISwComponents {
 }
 
 type c18Subject struct {
+	signer keyPair // for Evidence subjects: the one key that must verify
 	desc   string
 	claims psatoken.IClaims
 	ev     *psatoken.Evidence
@@ -216,7 +217,7 @@ func drawC18Subject(t *rapid.T) c18Subject {
 		if err != nil {
 			t.Fatalf("own token does not decode: %v", err)
 		}
-		return c18Subject{desc: kind, claims: ev.Claims, ev: ev, keys: []keyPair{kp, other, keyFor(icose.ES384, 0)}, sparse: len(m.Comps) == 0 || m.CertRef == nil}
+		return c18Subject{signer: kp, desc: kind, claims: ev.Claims, ev: ev, keys: []keyPair{kp, other, keyFor(icose.ES384, 0)}, sparse: len(m.Comps) == 0 || m.CertRef == nil}
 	}
 	c, _ := m.BuildLiteral()
 	ev := &psatoken.Evidence{}
@@ -226,7 +227,7 @@ func drawC18Subject(t *rapid.T) c18Subject {
 	if _, err := ev.ValidateAndSign(kp.Signer()); err != nil {
 		t.Fatalf("VERIF-INFRA: %v", err)
 	}
-	return c18Subject{desc: kind, claims: c, ev: ev, keys: []keyPair{kp, other, keyFor(icose.ES384, 0)}, sparse: len(m.Comps) == 0 || m.CertRef == nil}
+	return c18Subject{signer: kp, desc: kind, claims: c, ev: ev, keys: []keyPair{kp, other, keyFor(icose.ES384, 0)}, sparse: len(m.Comps) == 0 || m.CertRef == nil}
 }
 
 func TestC18_ReadOnly(t *testing.T) {
@@ -307,6 +308,14 @@ func TestC18_ReadOnly(t *testing.T) {
 				r1 := op.run()
 				if fp := visibleFP(target); fp != fp0 {
 					t.Fatalf("C18 violated (%s): %s changed its operand: %s\n  sequence: %v", s.desc, op.name, firstDiff(fp0, fp), seq)
+				}
+				if s.ev != nil && strings.HasPrefix(op.name, "Evidence.Verify(") {
+					// whatever was verified before, with whatever key: the
+					// outcome is decided by the key alone
+					want := fmt.Sprint(op.name == "Evidence.Verify("+s.signer.Name()+")")
+					if r1 != want {
+						t.Fatalf("C18 violated (%s): %s = %s, expected %s (token signed with %s); the outcome depends on earlier calls\n  sequence: %v", s.desc, op.name, r1, want, s.signer.Name(), seq)
+					}
 				}
 				r2 := op.run()
 				if r1 != r2 {
